@@ -2045,6 +2045,11 @@ func (p *Peer) HTTPQueryWithRetries(ctx context.Context, req *Request, peerAddr,
 	// retry on broken pipe errors
 	for retry := 1; retry <= retries && err != nil; retry++ {
 		logWith(p, req).Debugf("errored: %s", err.Error())
+		if req != nil && req.Command != "" {
+			// never repeat commands here: the remote site has received the request and answered it,
+			// sending it again could run the commands twice (or three times)
+			break
+		}
 		if strings.HasPrefix(err.Error(), "remote site returned rc: 0 - ERROR: broken pipe.") {
 			time.Sleep(1 * time.Second)
 			res, err = p.HTTPQuery(ctx, req, peerAddr, query)
